@@ -173,6 +173,7 @@ func (c *Ctx) runTLC(j TLCJob) TLCResult {
 		os.Remove(j.OutFile)
 		args = append(args, "-Dverif.out="+j.OutFile)
 	}
+	args = append(args, "-Dverif.seed="+strconv.Itoa(c.Seed))
 	for k, v := range j.Defs {
 		args = append(args, "-D"+k+"="+v)
 	}
